@@ -17,6 +17,7 @@ import (
 
 	jdoc "github.com/jsightapi/jsight-schema-go-library/formats/json"
 	"github.com/jsightapi/jsight-schema-go-library/notations/jschema"
+	"github.com/jsightapi/jsight-schema-go-library/rules/enum"
 )
 
 type graph struct {
@@ -183,6 +184,17 @@ func publicSchemaCalls(b []byte) []publicResult {
 	}
 }
 
+// publicEnumCalls: the text as an enum rule through the public entry points.
+func publicEnumCalls(b []byte) []publicResult {
+	mk := func() *enum.Enum { return enum.New("e", b) }
+	return []publicResult{
+		{"Check", guard(func() error { return mk().Check() })},
+		{"Len", guard(func() error { _, e := mk().Len(); return e })},
+		{"GetAST", guard(func() error { _, e := mk().GetAST(); return e })},
+		{"Values", guard(func() error { _, e := mk().Values(); return e })},
+	}
+}
+
 // checkSchemaLex runs the schema scanner alone (hook VerifScan) over b.
 func checkSchemaLex(b []byte) Outcome {
 	_, _, f := jschema.VerifScan(b, false)
@@ -242,9 +254,17 @@ func init() {
 				return
 			}
 			var got Outcome
-			if *sut == "schema" {
+			switch *sut {
+			case "schema":
 				got = checkSchemaLex(b)
-			} else {
+			case "enum":
+				got = guard(func() error { return enum.New("e", b).Check() })
+				if got.Code == 810 && !*robust {
+					// equal items: refused by the rule, not by its syntax (EnumText leaves it aside)
+					atomic.AddInt64(&unspec, 1)
+					return
+				}
+			default:
 				got = checkDoc(b, *trailing)
 			}
 			if *robust {
@@ -260,8 +280,8 @@ func init() {
 				what = "panic"
 			} else if got.OK != (want == "accept") {
 				what = "verdict"
-				if *sut == "schema" {
-					// no listed property fixes the exact language of the schema scanner: differences are reported, positions are judged
+				if *sut == "schema" || *sut == "enum" {
+					// no listed property fixes the exact language of the schema / enum scanner: differences are reported, positions are judged
 					what = ""
 					n := atomic.AddInt64(&lenient, 0)
 					if got.OK {
@@ -378,8 +398,12 @@ func init() {
 				}
 				atomic.AddInt64(&transitions, 1)
 				base := append(append([]byte{}, acc[s]...), byte(c))
-				if *robust && *sut == "schema" {
-					for _, pr := range publicSchemaCalls(base) {
+				if *robust && (*sut == "schema" || *sut == "enum") {
+					calls := publicSchemaCalls
+					if *sut == "enum" {
+						calls = publicEnumCalls
+					}
+					for _, pr := range calls(base) {
 						if pr.Got.Kind == "panic" || pr.Got.Kind == "foreign" || (!pr.Got.OK && pr.Got.Kind == "liberr" && pr.Got.Pos > len(base)) {
 							atomic.AddInt64(&mism, 1)
 							w.Write(c05Mismatch{Bytes: bytesToInts(base), Want: pr.Op, WantPos: -1, Got: pr.Got, What: "robust-public"})
